@@ -388,7 +388,11 @@ def make_unsupported_leaf(rng, kind):
   if kind == 'set':
     return Leaf({1, 2}, kind)
   if kind == 'bigint':
-    return Leaf([2**64, -2**63 - 1, 2**100, -2**64][rng.randint(4)], kind)
+    # wider than msgpack's 64 bits: rejected today; if ever supported they must round-trip exactly -- including values whose
+    # bit length is a multiple of 8 (top bit of the top byte set), both signs, and one past each boundary
+    pool = [2**64, -2**63 - 1, 2**100, -2**64, 2**71, 2**72 - 1, 2**79, 2**127, 2**128 - 1, 2**255, -2**71, -2**127,
+            2**72, 2**64 + 255, (1 << 96) - 1, int(rng.randint(1, 2**31)) << int(rng.randint(40, 200))]
+    return Leaf(pool[rng.randint(len(pool))], kind)
   if kind == 'dict-int-key':
     return Leaf({1: 2}, kind)
   if kind == 'dict-tuple-key':
